@@ -14,7 +14,7 @@ class C08(JournalCheck):
         "mirrored CompIDs, persist_msg IN/OUT incl. duplicates, set_seq_num in every argument shape, reset, reads, "
         "close + reopen) on a real file-backed Journaler, bracketed by the initial open and a final normal close; "
         "one evaluation = one crash point of that history (before/after every SQL statement and every commit, all of "
-        "them; a seeded sample of crash_cap=128 only if a history has more, which 12 operations cannot reach) or one normal close: the file image at "
+        "them; a seeded sample of crash_cap=128 (quick) / 256 (thorough) only if a history had more, which 12 / 25 operations of at most 8 boundaries each cannot reach) or one normal close: the file image at "
         "that instant is reopened by a fresh Journaler and its complete observable content must equal the model "
         "after k or k+1 completed operations (exactly k before the first and exactly k+1 after the last "
         "statement/commit of an operation, exactly k after a normal close); non-trivial = history has >= 3 mutating "
